@@ -98,52 +98,121 @@ func topoOrder(roots []*RCell, seed uint64) []*RCell {
 	return order
 }
 
-// CellRepr is the standard serialisation of one cell inside a BOC (descriptors, optional hashes, data,
-// ref indices of refSize bytes).
-func cellRepr(c *RCell, idx map[string]int, refSize int, withHashes bool) []byte {
+// RawCell is one serialised cell, field by field, so that a test can lie in any single field.
+type RawCell struct {
+	D1, D2 byte
+	Hashes []byte   // stored hashes and depths (present iff the writer sets the with-hashes bit)
+	Data   []byte   // padded data bytes
+	Refs   []uint64 // indices, written with the header's ref size
+}
+
+// RawBoc is a bag of cells field by field. Bytes() writes exactly what the fields say.
+type RawBoc struct {
+	Magic    []byte
+	SizeByte byte // generic magic: flags|size ; legacy magics: size
+	OffBytes byte
+	Cells    uint64
+	Roots    uint64
+	Absent   uint64
+	TotSize  uint64
+	RootList []uint64
+	HasIndex bool
+	Index    []uint64
+	CellList []RawCell
+	HasCRC   bool
+	CRCXor   uint32 // xored into the correct checksum (0 = correct)
+	Trailing []byte
+}
+
+func (r *RawBoc) size() int {
+	if len(r.Magic) == 4 && r.Magic[0] == 0xb5 {
+		return int(r.SizeByte & 7)
+	}
+	return int(r.SizeByte)
+}
+
+func putWide(dst []byte, v uint64, n int) []byte {
+	for n > 8 {
+		dst = append(dst, 0)
+		n--
+	}
+	return putN(dst, v, n)
+}
+
+func (c *RawCell) bytes(size int) []byte {
+	out := []byte{c.D1, c.D2}
+	out = append(out, c.Hashes...)
+	out = append(out, c.Data...)
+	for _, r := range c.Refs {
+		out = putWide(out, r, size)
+	}
+	return out
+}
+
+// Body returns the concatenated cell data.
+func (r *RawBoc) Body() []byte {
+	var body []byte
+	for i := range r.CellList {
+		body = append(body, r.CellList[i].bytes(r.size())...)
+	}
+	return body
+}
+
+func (r *RawBoc) Bytes() []byte {
+	size, off := r.size(), int(r.OffBytes)
+	out := append([]byte{}, r.Magic...)
+	out = append(out, r.SizeByte, r.OffBytes)
+	out = putWide(out, r.Cells, size)
+	out = putWide(out, r.Roots, size)
+	out = putWide(out, r.Absent, size)
+	out = putWide(out, r.TotSize, off)
+	for _, x := range r.RootList {
+		out = putWide(out, x, size)
+	}
+	if r.HasIndex {
+		for _, x := range r.Index {
+			out = putWide(out, x, off)
+		}
+	}
+	out = append(out, r.Body()...)
+	if r.HasCRC {
+		var c [4]byte
+		binary.LittleEndian.PutUint32(c[:], crc32.Checksum(out, crc32.MakeTable(crc32.Castagnoli))^r.CRCXor)
+		out = append(out, c[:]...)
+	}
+	return append(out, r.Trailing...)
+}
+
+func rawCell(c *RCell, idx map[string]int, withHashes bool) RawCell {
 	d1 := byte(len(c.Refs)) + 32*c.Mask()
 	if c.Special {
 		d1 += 8
 	}
+	rc := RawCell{D2: c.d2(), Data: c.padded()}
 	if withHashes {
 		d1 += 16
-	}
-	out := []byte{d1, c.d2()}
-	if withHashes {
 		var levels []int
 		for l := 0; l <= 3; l++ {
 			if l == 0 || c.Mask()>>uint(l-1)&1 == 1 {
 				levels = append(levels, l)
 			}
 		}
-		if c.Type() == TypePruned {
-			levels = levels[len(levels)-1:]
-			// a pruned branch has exactly one own hash, but the format stores hashes_count entries
-			// for every significant level; real writers never store hashes for pruned cells. Keep it
-			// simple: store every significant level using the cell's effective values.
-			levels = nil
-			for l := 0; l <= 3; l++ {
-				if l == 0 || c.Mask()>>uint(l-1)&1 == 1 {
-					levels = append(levels, l)
-				}
-			}
+		for _, l := range levels {
+			rc.Hashes = append(rc.Hashes, c.Hash(l)...)
 		}
 		for _, l := range levels {
-			out = append(out, c.Hash(l)...)
-		}
-		for _, l := range levels {
-			out = putN(out, uint64(c.Depth(l)), 2)
+			rc.Hashes = putN(rc.Hashes, uint64(c.Depth(l)), 2)
 		}
 	}
-	out = append(out, c.padded()...)
+	rc.D1 = d1
 	for _, r := range c.Refs {
-		out = putN(out, uint64(idx[r.Key()]), refSize)
+		rc.Refs = append(rc.Refs, uint64(idx[r.Key()]))
 	}
-	return out
+	return rc
 }
 
-// SerializeBOC writes roots as a bag of cells in the requested variant.
-func SerializeBOC(roots []*RCell, v BocVariant) []byte {
+// RawFromDag lays roots out as a truthful RawBoc in the requested variant.
+func RawFromDag(roots []*RCell, v BocVariant) *RawBoc {
 	order := topoOrder(roots, v.OrderSeed)
 	idx := map[string]int{}
 	for i, c := range order {
@@ -153,24 +222,28 @@ func SerializeBOC(roots []*RCell, v BocVariant) []byte {
 	if refSize > 4 {
 		refSize = 4
 	}
-	var body []byte
-	ends := make([]uint64, len(order))
-	for i, c := range order {
-		body = append(body, cellRepr(c, idx, refSize, v.WithHashes)...)
-		ends[i] = uint64(len(body))
+	r := &RawBoc{Cells: uint64(len(order)), Roots: uint64(len(roots))}
+	var ends []uint64
+	tot := uint64(0)
+	for _, c := range order {
+		rc := rawCell(c, idx, v.WithHashes)
+		r.CellList = append(r.CellList, rc)
+		tot += uint64(len(rc.bytes(refSize)))
+		ends = append(ends, tot)
 	}
-	offSize := bytesFor(uint64(len(body))*2+1) + v.ExtraOff
-	if !v.CacheBits || v.Magic != 0 {
-		offSize = bytesFor(uint64(len(body))) + v.ExtraOff
+	r.TotSize = tot
+	cache := v.Magic == 0 && v.CacheBits
+	offSize := bytesFor(tot) + v.ExtraOff
+	if cache {
+		offSize = bytesFor(tot*2+1) + v.ExtraOff
 	}
 	if offSize > 8 {
 		offSize = 8
 	}
-	var out []byte
-	hasIdx, hasCRC := v.Index, v.CRC
+	r.OffBytes = byte(offSize)
 	switch v.Magic {
 	case 0:
-		out = append(out, 0xb5, 0xee, 0x9c, 0x72)
+		r.Magic = []byte{0xb5, 0xee, 0x9c, 0x72}
 		f := byte(refSize)
 		if v.Index {
 			f |= 128
@@ -181,35 +254,30 @@ func SerializeBOC(roots []*RCell, v BocVariant) []byte {
 		if v.CacheBits {
 			f |= 32
 		}
-		out = append(out, f)
+		r.SizeByte = f
+		r.HasIndex, r.HasCRC = v.Index, v.CRC
 	case 1:
-		out = append(out, 0x68, 0xff, 0x65, 0xf3, byte(refSize))
-		hasIdx, hasCRC = true, false
+		r.Magic = []byte{0x68, 0xff, 0x65, 0xf3}
+		r.SizeByte = byte(refSize)
+		r.HasIndex = true
 	case 2:
-		out = append(out, 0xac, 0xc3, 0xa7, 0x28, byte(refSize))
-		hasIdx, hasCRC = true, true
+		r.Magic = []byte{0xac, 0xc3, 0xa7, 0x28}
+		r.SizeByte = byte(refSize)
+		r.HasIndex, r.HasCRC = true, true
 	}
-	out = append(out, byte(offSize))
-	out = putN(out, uint64(len(order)), refSize)
-	out = putN(out, uint64(len(roots)), refSize)
-	out = putN(out, 0, refSize)
-	out = putN(out, uint64(len(body)), offSize)
-	for _, r := range roots {
-		out = putN(out, uint64(idx[r.Key()]), refSize)
+	for _, x := range roots {
+		r.RootList = append(r.RootList, uint64(idx[x.Key()]))
 	}
-	if hasIdx {
+	if r.HasIndex {
 		for _, e := range ends {
-			if v.Magic == 0 && v.CacheBits {
-				e = e*2 + 0
+			if cache {
+				e = e * 2
 			}
-			out = putN(out, e, offSize)
+			r.Index = append(r.Index, e)
 		}
 	}
-	out = append(out, body...)
-	if hasCRC {
-		var c [4]byte
-		binary.LittleEndian.PutUint32(c[:], crc32.Checksum(out, crc32.MakeTable(crc32.Castagnoli)))
-		out = append(out, c[:]...)
-	}
-	return out
+	return r
 }
+
+// SerializeBOC writes roots as a bag of cells in the requested variant.
+func SerializeBOC(roots []*RCell, v BocVariant) []byte { return RawFromDag(roots, v).Bytes() }
